@@ -135,7 +135,11 @@ func init() {
 						r.srv.Close()
 					case fault == "none":
 					default:
-						if n, _ := fmt.Sscanf(fault, "reset%d", &i); n == 1 {
+						if fault == "reset01" {
+							// two connections fail one after the other (a third stays healthy)
+							r.sa[0].Reset()
+							r.sa[1].Reset()
+						} else if n, _ := fmt.Sscanf(fault, "reset%d", &i); n == 1 {
 							r.sa[i].Reset()
 						} else if n, _ := fmt.Sscanf(fault, "cut%d:%d", &i, &k); n == 2 {
 							r.sa[i].CutAfter(k)
@@ -223,9 +227,15 @@ func init() {
 				}
 				quiesce()
 				k := vrt.Choose(nconn, "which-connection-fails")
-				order := vrt.Choose(4, "who-sends")
+				order := vrt.Choose(6, "who-sends")
 				r.sa[k].Reset()
 				switch order {
+				case 4:
+					// the first operation to meet the fault is a stream Close (its closing frame cannot be written)
+					cs.Close()
+				case 5:
+					ss.Close()
+					cs.Write([]byte{2})
 				case 0:
 					cs.Write([]byte{2})
 					ss.Write([]byte{3})
@@ -489,6 +499,10 @@ func init() {
 		jobs = append(jobs, vx.Job{Scenario: "mux.fault", Params: vx.P("fault", "reset1", "streams", "2", "frames", "1", "delay", "1"), Bound: b(2, 3), Weight: 9})
 		jobs = append(jobs, vx.Job{Scenario: "mux.fault", Params: vx.P("fault", "reset0", "frames", "1", "srvwrite", "1", "delay", "1"), Bound: b(2, 3), Weight: 9})
 		jobs = append(jobs, vx.Job{Scenario: "mux.fault", Params: vx.P("fault", "reset0", "frames", "2", "wlimit", "1", "srvwrite", "1", "delay", "1"), Bound: b(1, 2), Weight: 9})
+		jobs = append(jobs, vx.Job{Scenario: "mux.fault", Params: vx.P("fault", "reset01", "frames", "1", "conns", "3", "delay", "1"), Bound: b(2, 3), Weight: 8})
+		// long-lived sessions: a frame for a long-closed stream after thousands of stream closures
+		jobs = append(jobs, vx.Job{Scenario: "mux.lateframe", Params: vx.P("strict", "1"), Bound: b(1, 2), Weight: 3})
+		jobs = append(jobs, vx.Job{Scenario: "mux.lateframe", Params: vx.P("strict", "1", "cycles", "4200", "targets", map[bool]string{true: "few", false: "all"}[q]), Bound: 0, Weight: 9})
 		jobs = append(jobs, vx.Job{Scenario: "mux.faultsend", Params: vx.P("conns", "2"), Bound: b(1, 2), Weight: 5})
 		jobs = append(jobs, vx.Job{Scenario: "mux.faultsend", Params: vx.P("conns", "3"), Bound: b(0, 1), Weight: 6})
 		for _, k := range []string{"0", "3", "5", "100", "274"} {
